@@ -146,9 +146,6 @@ func (v *verdict) evalEmbedded(f *fieldD, s *source, inherited, tree map[string]
 			v.unk("optional embedded struct %s has a member with a dependency rule", f.GoName)
 		}
 	}
-	if s.ctx.Canon != nil {
-		v.unk("optional embedded struct %s under a key-canonicalising unmarshaler", f.GoName)
-	}
 	if present == 0 {
 		return
 	}
@@ -608,11 +605,16 @@ type comparer struct {
 	ss       sources
 	out      []mismatch
 	compared int
+	optEmb   bool // currently comparing a direct member of an optional embedded struct
 }
 
 func (c *comparer) bad(class string, k reflect.Kind, path, format string, a ...any) {
+	kind := kindClass(k)
+	if c.optEmb {
+		class, kind = class+"-in-optional-embedded", "member"
+	}
 	if len(c.out) < 10 {
-		c.out = append(c.out, mismatch{class, kindClass(k), path, fmt.Sprintf(format, a...)})
+		c.out = append(c.out, mismatch{class, kind, path, fmt.Sprintf(format, a...)})
 	}
 }
 
@@ -663,9 +665,6 @@ func (c *comparer) fields(fields []*fieldD, sv reflect.Value, cands []*source, t
 				continue
 			}
 			s := rd[0]
-			if s.ctx.Canon != nil {
-				continue // see evalEmbedded: not claimed under a key-canonicalising unmarshaler
-			}
 			t := tree
 			if t == nil {
 				t = s.tree
@@ -692,7 +691,9 @@ func (c *comparer) fields(fields []*fieldD, sv reflect.Value, cands []*source, t
 		if t == nil {
 			t = rd[0].tree
 		}
+		c.optEmb = lenientAbsent
 		c.field(f, fv, rd[0], t, p, lenientAbsent)
+		c.optEmb = false
 	}
 }
 
